@@ -559,6 +559,8 @@ def oracle(case, ans):
                 return "d is not gcd(a,b)"
             if op == "gcd_ext" and u * x + v * y != d:
                 return "u*a + v*b != d"
+            if op == "gcd_ext" and max(x, y) < 1 << (64 * int(a[0]) - 7) and max(abs(u), abs(v)) > 64 * max(x, y) + 1:
+                return "cofactor above 64*max(a,b)+1 (no_panic_ext_wide)"
             return None
         if op == "gcd_inv_mod":
             _, n, p = _ints(a)
